@@ -48,7 +48,8 @@ Proof.
   - eapply translate_special_addr; eauto.
   - addr_tac H.
   - addr_tac H.
-  - destruct (Tables.ind i); [|discriminate]. destruct v; try discriminate;
+  - destruct (Tables.ind i); [|discriminate].
+    destruct v as [| | | |? ? ? ? [|]| | | |]; try discriminate;
       try (destruct r; [eapply translate_indexed_addr; eauto | discriminate]); addr_tac H.
   - eapply translate_indexed_addr; eauto.
   - addr_tac H.
@@ -80,12 +81,12 @@ Theorem program_addresses_advance fm parsed ss tb :
     addr_of_stmt b = addr_of_stmt a + size_of_stmt a.
 Proof.
   unfold translate_program. intros H.
-  apply bind_ok in H as [ss0 [_ H]]. apply bind_ok in H as [tb0 [_ H]].
+  apply bind_ok in H as [ss0 [_ H]]. apply bind_ok in H as [tb00 [_ H]]. apply bind_ok in H as [tb0 [_ H]].
   apply bind_ok in H as [ss1 [H1 H]]. apply bind_ok in H as [ss2 [H2 H]].
   apply bind_ok in H as [ss3 [H3 H]]. apply bind_ok in H as [ss4 [H4 H]].
   apply bind_ok in H as [ss5 [H5 H]]. apply bind_ok in H as [tb' [_ H]]. inversion H; subst ss tb. clear H.
   intros i a b Ha Hb Horg.
-  pose proof (fix_all_rel _ _ _ _ H5) as R5. pose proof (assign_placed _ _ _ H4) as P4.
+  pose proof (fix_all_rel _ _ _ _ H5) as R5. pose proof (assign_placed _ _ _ _ H4) as P4.
   pose proof (size_loop_rel _ _ _ H3) as R3.
   destruct (Forall2_nth_r _ _ _ _ _ R5 Ha) as [a4 [Ha4 Ra]]. destruct (Forall2_nth_r _ _ _ _ _ R5 Hb) as [b4 [Hb4 Rb]].
   assert (Hl43 : length ss4 = length ss3) by (eapply placed_length; eauto).
@@ -216,7 +217,7 @@ Proof.
   unfold assemble. intros H. apply bind_ok in H as [parsed [_ H]]. apply bind_ok in H as [[ss tb] [Ht H]].
   apply bind_ok in H as [rs [Hrs H]]. apply bind_ok in H as [syms [_ H]]. inversion H; subst r. cbn [r_stmts]. clear H.
   unfold translate_program in Ht.
-  apply bind_ok in Ht as [ss0 [_ Ht]]. apply bind_ok in Ht as [tb0 [Hsave Ht]].
+  apply bind_ok in Ht as [ss0 [_ Ht]]. apply bind_ok in Ht as [tb00 [Hsave Ht]]. apply bind_ok in Ht as [tb0 [_ Ht]].
   apply bind_ok in Ht as [ss1 [H1 Ht]]. apply bind_ok in Ht as [ss2 [H2 Ht]].
   apply bind_ok in Ht as [ss3 [H3 Ht]]. apply bind_ok in Ht as [ss4 [H4 Ht]].
   apply bind_ok in Ht as [ss5 [H5 Ht]]. apply bind_ok in Ht as [tb' [_ Ht]]. inversion Ht; subst ss tb. clear Ht.
